@@ -3,6 +3,7 @@ package props
 import (
 	"fmt"
 	"strings"
+	"verif/drv"
 
 	"verif/internal/jsonv"
 	"verif/internal/refmodel"
@@ -200,6 +201,56 @@ func c11(ctx *Ctx) {
 	// branches that constrain the SAME property with different keywords (both must hold) or with the same keyword and
 	// different values (both must hold; the current implementation keeps the first: listed finding ALLOF_FIRST_WINS)
 	runBehaviour(ctx, behaviour{Name: "overlap", Cases: c11Overlap(ctx.Level), Devs: c11Devs, Values: true,
+		// the merge appends the enum lists of a property both branches declare (mergo with append-slice): a value that only one list names
+		// is accepted (KF-C11-7); recognised when every given p is a member of the united list and one of them is not in both lists
+		KnownMismatch: func(sc *SCase, d *refmodel.Doc, o *drv.Obs) string {
+			if !strings.Contains(sc.Axes["leaf"], "enum|enum") || o.Err != "" || o.Panic != "" {
+				return ""
+			}
+			var ps []any
+			root, _ := d.V.(map[string]any)
+			if c, ok := root["c"].(map[string]any); ok {
+				if v, has := c["p"]; has {
+					ps = append(ps, v)
+				}
+			}
+			if l, ok := root["l"].([]any); ok {
+				for _, e := range l {
+					if m, ok := e.(map[string]any); ok {
+						if v, has := m["p"]; has {
+							ps = append(ps, v)
+						}
+					}
+				}
+			}
+			onlyOne := false
+			for _, v := range ps {
+				sv, ok := v.(string)
+				if !ok || (sv != "a" && sv != "b" && sv != "c") {
+					return ""
+				}
+				if sv != "b" {
+					onlyOne = true
+				}
+			}
+			if onlyOne {
+				return "ALLOF_ENUM_LISTS_UNITED"
+			}
+			return ""
+		},
+		DocGen: func(sc *SCase, m *refmodel.Model) []refmodel.Doc {
+			docs := m.Docs(1)
+			if strings.Contains(sc.Axes["leaf"], "enum|enum") {
+				// every member of either list, and a value of neither
+				for _, pv := range []string{"a", "b", "c", "zz"} {
+					v := map[string]any{"c": map[string]any{"p": pv, "q": true}}
+					docs = append(docs, refmodel.Doc{V: v, Text: jsonv.Text(v), Class: "enum-member:" + pv})
+					w := map[string]any{"c": map[string]any{"p": "b"}, "l": []any{map[string]any{"p": pv}}}
+					docs = append(docs, refmodel.Doc{V: w, Text: jsonv.Text(w), Class: "enum-member-in-item:" + pv})
+				}
+			}
+			return docs
+		},
 		DocFilter: func(sc *SCase, d *refmodel.Doc, tv refmodel.Verdict) bool { return !strings.Contains(d.Class, "type:") }})
 	// two composite lists that share one definition by reference: what one list adds to a property of the definition must not
 	// show in the other list, nor in a plain reference to the definition
@@ -507,6 +558,8 @@ func c11Overlap(level int) []SCase {
 		{"plain|minLength", J{"type": str}, J{"type": str, "minLength": 2}},
 		{"minLength|minLength", J{"type": str, "minLength": 2}, J{"type": str, "minLength": 4}},
 		{"maximum|maximum", J{"type": in, "maximum": 9}, J{"type": in, "maximum": 5}},
+		// both branches restrict the property to a list of values: the conjunction admits the values both lists name
+		{"enum|enum", J{"type": str, "enum": A{"a", "b"}}, J{"type": str, "enum": A{"b", "c"}}},
 		// the shared property is itself an object: nested property sets and nested required lists of both branches hold together
 		{"object:required-x|required-y", J{"type": "object", "properties": J{"x": J{"type": str}}, "required": A{"x"}}, J{"type": "object", "properties": J{"y": J{"type": in}}, "required": A{"y"}}},
 		{"object:plain|required-y", J{"type": "object", "properties": J{"x": J{"type": str}, "y": J{"type": in}}}, J{"type": "object", "properties": J{"x": J{"type": str}, "y": J{"type": in}}, "required": A{"y"}}},
@@ -525,6 +578,9 @@ func c11Overlap(level int) []SCase {
 				for _, ref := range []int{0, 1, 2} {
 					if level == 0 && ref == 2 {
 						continue
+					}
+					if p.name == "enum|enum" && (comp != "allOf" || ref != 0) {
+						continue // anyOf: the merged struct carries one enum type for both branches (KF-C11-1); by reference: KF-C11-4
 					}
 					if ref != 0 && strings.HasPrefix(p.name, "object:") {
 						// a branch given by $ref: the merged property IS the definition's own property schema (KF-C11-4), whose type
